@@ -85,8 +85,8 @@ class D:
         return _sub(a, b)
     def __rsub__(a, b): return _sub(b, a)
     def __mul__(a, b):
-        if isinstance(b, (Vec, Mat)):
-            return NotImplemented
+        if not is_scalar(b):
+            return NotImplemented          # Vec/Mat/SpatialVec/Inertia...: their __rmul__ handles scalar*object
         return _mul(a, b)
     def __rmul__(a, b): return _mul(b, a)
     def __truediv__(a, b): return _div(a, b)
@@ -245,6 +245,9 @@ def cube(x):
 #   ~x transpose, a % b cross product, ~a * b dot product, m(i,j) element,
 #   m[i] row i, m(j) column j, Mat(rows...) constructors are row-major element lists
 # ----------------------------------------------------------------------
+HOOKS = {}
+
+
 class Vec:
     def __init__(self, *e):
         if len(e) == 1 and isinstance(e[0], (list, tuple)):
@@ -277,6 +280,10 @@ class Vec:
     def __mod__(a, b):                    # cross product
         if isinstance(b, Vec) and len(a) == 3 and len(b) == 3:
             return cross(a, b)
+        if isinstance(b, SymMat) and "cross_vec_symmat" in HOOKS:
+            return HOOKS["cross_vec_symmat"](a, b)     # the transliterated real cross(Vec3,SymMat33)
+        if isinstance(b, Mat) and len(a) == 3 and b.nr == 3:
+            return crossMat(a) * b
         return NotImplemented
     def normSqr(a): return sum((x * x for x in a.e[1:]), a.e[0] * a.e[0])
     def norm(a): return sqrt(a.normSqr())
@@ -330,9 +337,12 @@ class Mat:
     def col(self, j): return Vec([self.m[r][j] for r in range(self.nr)])
     def __invert__(a): return Mat([[a.m[i][j] for i in range(a.nr)] for j in range(a.nc)])
     def transpose(a): return ~a
-    def __add__(a, b): return Mat([[x + y for x, y in zip(r, s)] for r, s in zip(a.m, b.m)])
-    def __sub__(a, b): return Mat([[x - y for x, y in zip(r, s)] for r, s in zip(a.m, b.m)])
-    def __neg__(a): return Mat([[-x for x in r] for r in a.m])
+    def _like(a, b, rows):
+        cls = SymMat if (isinstance(a, SymMat) and (b is None or isinstance(b, SymMat))) else Mat
+        return cls(rows)
+    def __add__(a, b): return a._like(b, [[x + y for x, y in zip(r, s)] for r, s in zip(a.m, b.m)])
+    def __sub__(a, b): return a._like(b, [[x - y for x, y in zip(r, s)] for r, s in zip(a.m, b.m)])
+    def __neg__(a): return a._like(None, [[-x for x in r] for r in a.m])
     def __mul__(a, b):
         if isinstance(b, Mat):
             assert a.nc == b.nr
@@ -342,27 +352,73 @@ class Mat:
         if isinstance(b, Vec):
             assert a.nc == len(b)
             return Vec([sum((a.m[i][k] * b.e[k] for k in range(1, a.nc)), a.m[i][0] * b.e[0]) for i in range(a.nr)])
+        if isinstance(b, SpatialVec):
+            return SpatialVec(a * b.e[0], a * b.e[1])
         if is_scalar(b):
-            return Mat([[x * b for x in r] for r in a.m])
+            return a._like(None, [[x * b for x in r] for r in a.m])
         return NotImplemented
     def __rmul__(a, b):
         if is_scalar(b):
-            return Mat([[b * x for x in r] for r in a.m])
+            return a._like(None, [[b * x for x in r] for r in a.m])
         return NotImplemented
-    def __truediv__(a, b): return Mat([[x / b for x in r] for r in a.m])
+    def __truediv__(a, b): return a._like(None, [[x / b for x in r] for r in a.m])
+    def getEltDiag(a, i): return a.m[i][i]
+    def getEltUpper(a, i, j): return a.m[i][j]
+    def getEltLower(a, i, j): return a.m[i][j]
+    def dropCol(a, j): return Mat([r[:j] + r[j + 1:] for r in a.m])
+    def toMat33(a): return Mat(a.m)
     def elements(a): return [x for r in a.m for x in r]
     def getSubMat(a, nr, nc, i, j): return Mat([a.m[r][j:j + nc] for r in range(i, i + nr)])
     def trace(a): return sum((a.m[i][i] for i in range(1, a.nr)), a.m[0][0])
     def diag(a): return Vec([a.m[i][i] for i in range(a.nr)])
 
 
+class SymMat(Mat):
+    """symmetric matrix (full storage here; the packed layout of SimTK::SymMat is not modelled)"""
+    pass
+
+
+class SpatialVec:
+    """Vec<2,Vec3>: [0] rotational part, [1] translational part"""
+    def __init__(self, a, b):
+        self.e = [a, b]
+    def __getitem__(self, i): return self.e[i]
+    def __setitem__(self, i, v): self.e[i] = v
+    def __add__(a, b): return SpatialVec(a.e[0] + b.e[0], a.e[1] + b.e[1])
+    def __sub__(a, b): return SpatialVec(a.e[0] - b.e[0], a.e[1] - b.e[1])
+    def __neg__(a): return SpatialVec(-a.e[0], -a.e[1])
+    def __rmul__(a, s): return SpatialVec(s * a.e[0], s * a.e[1])
+    def __mul__(a, s): return SpatialVec(a.e[0] * s, a.e[1] * s)
+    def __invert__(a): return SpatialRow(~a.e[0], ~a.e[1])
+    def flat(a): return list(a.e[0].e) + list(a.e[1].e)
+
+
+class SpatialRow:
+    def __init__(self, a, b):
+        self.e = [a, b]
+    def __mul__(a, b):
+        if isinstance(b, SpatialVec):
+            return a.e[0] * b.e[0] + a.e[1] * b.e[1]
+        return NotImplemented
+    def __invert__(a): return SpatialVec(~a.e[0], ~a.e[1])
+
+
+class Transform:
+    def __init__(self, R, p):
+        self._R, self._p = R, p
+    def R(self): return self._R
+    def p(self): return self._p
+
+
 def symmat33(*a):
     """SimTK SymMat33 constructor: lower triangle by rows (00; 10 11; 20 21 22)"""
     if len(a) == 1 and isinstance(a[0], Mat):
-        return Mat(a[0].m)
+        return SymMat(a[0].m)
+    if len(a) == 1 and is_scalar(a[0]):
+        return SymMat([[a[0] if i == j else 0 for j in range(3)] for i in range(3)])
     assert len(a) == 6
     a00, a10, a11, a20, a21, a22 = a
-    return Mat([[a00, a10, a20], [a10, a11, a21], [a20, a21, a22]])
+    return SymMat([[a00, a10, a20], [a10, a11, a21], [a20, a21, a22]])
 
 
 def eye(n):
@@ -405,6 +461,8 @@ def mat_sym(name, nr, nc):
 
 
 def elements(x):
+    if isinstance(x, SpatialVec):
+        return x.flat()
     if isinstance(x, Mat):
         return x.elements()
     if isinstance(x, Vec):
